@@ -93,6 +93,14 @@ Theorem C02_uniaxial : forall no ne sx sy th,
                fresnel_index Extraordinary no no ne sx sy (cos th) = no).
 Proof. exact uniaxial_closed_form. Qed.
 
+Theorem C02_uniaxial_any_direction : forall no ne sx sy sz,
+  0 < no -> 0 < ne -> sx * sx + sy * sy + sz * sz = 1 ->
+  (ne <= no -> fresnel_index Ordinary no no ne sx sy sz = no /\
+               fresnel_index Extraordinary no no ne sx sy sz = 1 / sqrt (y_uniaxial (inv2 no) (inv2 ne) (sz * sz))) /\
+  (no <= ne -> fresnel_index Ordinary no no ne sx sy sz = 1 / sqrt (y_uniaxial (inv2 no) (inv2 ne) (sz * sz)) /\
+               fresnel_index Extraordinary no no ne sx sy sz = no).
+Proof. exact uniaxial_closed_form_sz. Qed.
+
 (* the double root occurs exactly on the two optic axes *)
 Theorem C02_optic_axes : forall ax ay az px py pz,
   0 <= px -> 0 <= py -> 0 <= pz -> px + py + pz = 1 -> (az < ay < ax \/ ax < ay < az) ->
@@ -102,8 +110,8 @@ Proof. exact disc_zero_iff_optic_axis. Qed.
 (* walk-off.  PARTIAL: proved for the exact derivative (tan rho = -(1/n) dn/dtheta with d/dtheta the real derivative) of the
    uniaxial model with the pump along lab z.  The code replaces the derivative by the central difference with step
    eps^(1/3) |theta| (walkoff_gen, C02_walkoff_gen_is_central_difference); the truncation/rounding error of that difference
-   (the 1e-6 rad of the property) is measured by the correspondence goals, not proved: missing is a bound on the third
-   derivative of theta |-> n(theta) over the index range. *)
+   (the 1e-6 rad of the property) is bounded by C02_walkoff_truncation_partial in terms of the third derivative of
+   theta |-> n(theta); that derivative bound and the binary64 rounding of the quotient are measured, not proved. *)
 Theorem C02_walkoff_formula_partial : forall no ne phi th,
   0 < no -> 0 < ne ->
   (ne <= no ->
@@ -113,6 +121,17 @@ Theorem C02_walkoff_formula_partial : forall no ne phi th,
      walkoff_exact (fun t => index_model t phi no no ne (0, 0, 1) Ordinary) th = walkoff_uniaxial_closed no ne th /\
      walkoff_exact (fun t => index_model t phi no no ne (0, 0, 1) Extraordinary) th = 0).
 Proof. exact walkoff_model_pump. Qed.
+
+(* the same for ANY unit beam direction d (s_z = -sin theta dx + cos theta dz): exact derivative in closed form *)
+Theorem C02_walkoff_any_beam_partial : forall no ne phi d th,
+  0 < no -> 0 < ne -> unit_vec d ->
+  (ne <= no ->
+     walkoff_exact (fun t => index_model t phi no no ne d Extraordinary) th = walkoff_uniaxial_general no ne d th /\
+     walkoff_exact (fun t => index_model t phi no no ne d Ordinary) th = 0) /\
+  (no <= ne ->
+     walkoff_exact (fun t => index_model t phi no no ne d Ordinary) th = walkoff_uniaxial_general no ne d th /\
+     walkoff_exact (fun t => index_model t phi no no ne d Extraordinary) th = 0).
+Proof. exact walkoff_model_general. Qed.
 
 Theorem C02_walkoff_sign_and_90 : forall no ne,
   0 < no -> 0 < ne ->
@@ -125,6 +144,17 @@ Theorem C02_walkoff_gen_is_central_difference : forall n theta,
   walkoff_gen n theta =
   let h := fd_step_gen theta in atan (- ((n (theta + h) - n (theta - h)) / (2 * h)) / n theta).
 Proof. exact walkoff_gen_unfold. Qed.
+
+(* PARTIAL: distance between the code's walk-off (central difference, step h = eps^(1/3) |theta|) and the exact one, for any
+   index function n that is three times differentiable with third derivative bounded by M near theta: M h^2 / (6 n(theta)).
+   With h ~ 6e-6 |theta| the property's 1e-6 rad follows from any M <= 1e5; missing: that bound on the third derivative of
+   theta |-> index (not proved), and the binary64 rounding of the quotient (measured). *)
+Theorem C02_walkoff_truncation_partial : forall (n : R -> R) theta M,
+  0 < n theta ->
+  (forall t k, (k <= 3)%nat -> ex_derive_n n k t) ->
+  (forall t, theta - fd_step_gen theta < t < theta + fd_step_gen theta -> Rabs (Derive_n n 3 t) <= M) ->
+  Rabs (walkoff_gen n theta - walkoff_exact n theta) <= M * fd_step_gen theta ^ 2 / (6 * n theta).
+Proof. exact walkoff_gen_truncation. Qed.
 
 (* every orientation: the two divisors of the code's walk-off formula (step width, index) are non-zero over the reals *)
 Theorem C02_walkoff_defined : forall theta phi nx ny nz d p,
@@ -154,6 +184,9 @@ Print Assumptions C02_frame.
 Print Assumptions C02_uniaxial.
 Print Assumptions C02_optic_axes.
 Print Assumptions C02_walkoff_formula_partial.
+Print Assumptions C02_walkoff_any_beam_partial.
+Print Assumptions C02_uniaxial_any_direction.
 Print Assumptions C02_walkoff_sign_and_90.
 Print Assumptions C02_walkoff_gen_is_central_difference.
+Print Assumptions C02_walkoff_truncation_partial.
 Print Assumptions C02_walkoff_defined.
